@@ -246,7 +246,7 @@ macro_rules! on_compact {
 }
 
 pub fn gen_signed(cx: &mut Cx, rng: &mut Rng) -> Abs {
-    let nmax = if cx.small { 5 } else if rng.chance(1, 10) { 11 } else { 7 };
+    let nmax = if cx.small { 5 } else if rng.chance(1, if cx.thorough { 40 } else { 150 }) { 30 } else if rng.chance(1, 10) { 11 } else { 7 };
     let mode = rng.below(10);
     let mut abs;
     match mode {
